@@ -6,6 +6,7 @@ pub open spec fn caller_fn_post<R>(chan: int, mid: int, pre: &World, post: &Worl
     &&& payload_desc(task_uid(Caller__new__closure0__closure0__code(), mid, post.last_slot)) == (PayloadDesc { code: Caller__new__closure0__closure0__code(), mid: mid, slot: post.last_slot })
     &&& (*r is Ok ==> post.trace == pre.trace.push(Ev::Enq { chan: chan, pid: task_uid(Caller__new__closure0__closure0__code(), mid, post.last_slot), force: false }).push(Ev::OsRecv { slot: post.last_slot }))
     &&& (*r is Ok ==> rid(&r->Ok_0) == slot_value(post.last_slot))
+    &&& (*r is Ok ==> slot_answered(post.last_slot))
     &&& (*r is Err ==> post.trace == pre.trace || post.trace == pre.trace.push(Ev::Enq { chan: chan, pid: task_uid(Caller__new__closure0__closure0__code(), mid, post.last_slot), force: false }).push(Ev::OsRecv { slot: post.last_slot }))
 }
 impl<M: Message> BoxedFn<(CallTag, M)> {
